@@ -108,3 +108,36 @@ PROPS["C13"] = {
     "exhaustive": {"quick": False, "thorough": False},
     "assumptions": [],
 }
+
+ENGINES += [
+    {"name": "crabv", "path": "harness/h_prog.cc, e_fwd.cc, sem.hpp (crabsem), gen.hpp, gamma.hpp, doms.def", "serves_properties": ["C01", "C02"],
+     "kind_free_text": "reference-model monitor: generated CrabIR programs analysed by the real analyzers (every functional domain behind abstract_domain<V>), concrete crabsem executions checked against reported invariants (gamma_q through the public API) and assertion verdicts"},
+]
+
+_FWD_ASSUME = [
+    "programs are generated well-typed (crab's own type checker runs on each) and executed by the harness' reference interpreter (DESIGN 3.4); semantics crab leaves open are cut, not judged",
+    "membership is decided through the public API only (is_bottom, at, operator[], constraint exports, entails, point meet)",
+    "stub domains (apron/elina/boxes/pplite) are not functional in this build and are excluded",
+]
+PROPS["C01"] = {
+    "technique": "reference-model runtime monitor: concrete executions of a CrabIR interpreter checked against the invariants of the real forward analyzer (membership via public domain API), ASan+UBSan build",
+    "level_text": "thousands of generated CFGs (nested/irreducible loops, entry loop heads, unreachable and dead-end blocks, all numeric/boolean statement kinds) are analysed by intra_fwd_analyzer under random fixpoint parameters, liveness pruning, assumption maps and initial values; 25 concrete executions per program are checked at every block entry/exit against get_pre/get_post. Violations are localised to the first unsound statement or to the engine. Held on the executions run.",
+    "level_note": "sampled programs, domains and executions; executions are finite prefixes (budgeted); arrays/regions covered by C14/C15 engines",
+    "rule": "a case is (program, domain, domain parameters, fixpoint parameters, initial value); non-trivial = the program has a loop or a branch and at least one membership check was made against a non-top, non-bottom invariant; distinct = hash of program text + configuration",
+    "jobs": {
+        "quick": [{"name": "fwd-core", "bin": "crabv", "engine": "fwd", "cases": 4000, "params": {"dom": "core"}},
+                  {"name": "fwd-all", "bin": "crabv", "engine": "fwd", "cases": 2200, "params": {"dom": "any"}}],
+        "thorough": [{"name": "fwd-core", "bin": "crabv", "engine": "fwd", "cases": 60000, "params": {"dom": "core"}},
+                     {"name": "fwd-all", "bin": "crabv", "engine": "fwd", "cases": 90000, "params": {"dom": "any"}}],
+    },
+    "floor": {"quick": 2000, "thorough": 50000},
+    "counter_floors": {"quick": {"membership_checks_nontop": 200000, "programs_with_loops": 1500}},
+    "assumptions": _FWD_ASSUME,
+}
+PROPS["C02"] = dict(PROPS["C01"])
+PROPS["C02"].update({
+    "technique": "runtime monitor joining the assertion checker's verdict table (per debug-info id) with the concrete outcomes of reference-interpreter executions",
+    "level_text": "assertions synthesised from concrete runs ('nearly true') are placed in generated programs; the verdicts of the real intra_checker/assert_property_checker are joined with what concrete executions observed: a SAFE verdict with a failing execution or an UNREACHABLE verdict with any arrival is a violation. Held on the executions run.",
+    "rule": "a case is (program with synthesised assertions, domain, configuration); non-trivial as for C01; evidence counters give the verdict x concrete-outcome table (verdict_safe_holds = SAFE verdicts whose assertion was reached)",
+    "counter_floors": {"quick": {"verdict_safe_holds": 1000, "verdict_warning_fails": 500}},
+})
